@@ -1831,6 +1831,9 @@ def _generic_rules(chk):
     scope = _re_.compile('^(base_)?(time|datetime)(_|$)(?!period)')
     flt = lambda name: bool(scope.search(name.rsplit('.', 1)[-1]))
     _g.rule_group_names(chk, idx_, _Res(idx_), 'C07.groups', 'recognizers_date_time', flt, floor=3)
+    # offsets are not used as text and text is not used as an offset anywhere below the date-time model: an exception in any
+    # extractor empties the result of the whole query, clock times included
+    _g.rule_kind_contradictions(chk, idx_, 'C07.offset-kinds', 'recognizers_date_time', floor=300)
 
 
 _run_before_generic = run
